@@ -271,6 +271,8 @@ impl MultiPeerBackend for GenericSocketBackend {
         let (recv_queue, send_queue) = io.into_parts();
         let conn = next_conn();
         let registered = register(&self.peers, peer_id, Peer::new(conn, send_queue)).await;
+        #[cfg(feature = "verif-hooks")]
+        crate::__verif::yield_point("reg.after_table").await;
         self.round_robin.join(peer_id);
         match &self.fair_queue_inner {
             None => {}
